@@ -28,7 +28,7 @@ fn l_two_repeats() -> Layout {
 fn l_super_dvorak() -> Layout { load_layout_text(crate::default_fancy_layouts::DEFAULT_LAYOUTS["super-dvorak"]).expect("super-dvorak") }
 
 fn cfg(alphabet: &[KeyCode], max_events: usize, max_tablet: usize, devs: usize, ticks: usize, interval_ms: u64) -> EnvCfg {
-  EnvCfg { alphabet: alphabet.to_vec(), max_events, max_tablet, devs, ticks, tablet_end: false, late_us: vec![1000, interval_ms * 1000 - 1000], exact_deadline_arrival: true, max_calls: 400 }
+  EnvCfg { alphabet: alphabet.to_vec(), max_events, max_tablet, devs, ticks, tablet_end: false, late_us: vec![1000, interval_ms * 1000 - 1000], exact_deadline_arrival: true, max_calls: 400, script: vec![], burst_sizes: vec![], max_bursts: 0 }
 }
 
 fn families(id: &str, tier: Tier) -> Vec<BFamily<'static>> {
@@ -44,6 +44,15 @@ fn families(id: &str, tier: Tier) -> Vec<BFamily<'static>> {
       add("chord CAPSLOCK->[], CAPSLOCK+J->LEFT over {CAPSLOCK,J}", l_chord(), cfg(&[CAPSLOCK, J], l, 0, d, 0, 30));
       add("no-repeat A->A Disabled, B->B over {A,B,LEFTSHIFT}", l_norepeat(), cfg(&[A, B, LEFTSHIFT], if q { 5 } else { 6 }, 0, if q { 1 } else { 1 }, 0, 30));
       if !q { add("plain A->B over {A,C}, longer histories", l_plain(), cfg(&[A, C], 8, 0, 1, 0, 30)); }
+      // long bursts: a fixed alternating script delivered in one or two notifications of every size from a menu around
+      // powers of two (a loop that reads at most k events per wake-up, k <= 257, is caught whatever k is)
+      {
+        let mut c = cfg(&[A], 0, 0, 0, 0, 30);
+        c.script = (0..600).map(|i| if i % 2 == 0 { crate::keys::Event::Pressed(A) } else { crate::keys::Event::Released(A) }).collect();
+        c.burst_sizes = vec![1, 2, 3, 7, 8, 9, 15, 16, 17, 23, 24, 25, 31, 32, 33, 63, 64, 65, 127, 128, 129, 255, 256, 257];
+        c.max_bursts = 2; c.max_calls = 3000;
+        add("bursts: alternating A press/release, one or two notifications of 1..257 events each", l_plain(), c);
+      }
       // the quantifier also interleaves tablet-switch events and puts end-of-device anywhere, on either device
       let mut ct = cfg(&[A], if q { 4 } else { 5 }, 2, if q { 1 } else { 2 }, 0, 30); ct.tablet_end = true;
       add("plain A->B over {A} interleaved with up to 2 tablet events, either device may go away", l_plain(), ct);
@@ -153,7 +162,8 @@ pub fn run(ctx: &Ctx) -> Outcome {
 fn chord_signature(_prop: &str, _clause: &str, _detail: &str) -> Option<String> { None }
 
 pub fn env_json(c: &EnvCfg) -> Value {
-  json!({"alphabet": c.alphabet.iter().map(|k| format!("{}", k)).collect::<Vec<_>>(), "max_events": c.max_events, "max_tablet": c.max_tablet, "devs": c.devs, "ticks": c.ticks, "tablet_end": c.tablet_end, "late_us": c.late_us, "exact_deadline_arrival": c.exact_deadline_arrival, "max_calls": c.max_calls})
+  json!({"alphabet": c.alphabet.iter().map(|k| format!("{}", k)).collect::<Vec<_>>(), "max_events": c.max_events, "max_tablet": c.max_tablet, "devs": c.devs, "ticks": c.ticks, "tablet_end": c.tablet_end, "late_us": c.late_us, "exact_deadline_arrival": c.exact_deadline_arrival, "max_calls": c.max_calls,
+    "script": c.script.iter().map(|e| match e { crate::keys::Event::Pressed(k) => format!("+{}", k), crate::keys::Event::Released(k) => format!("-{}", k) }).collect::<Vec<_>>(), "burst_sizes": c.burst_sizes, "max_bursts": c.max_bursts})
 }
 
 pub fn replay_artefact(v: &Value) -> i32 {
@@ -165,6 +175,9 @@ pub fn replay_artefact(v: &Value) -> i32 {
     max_events: e["max_events"].as_u64().unwrap() as usize, max_tablet: e["max_tablet"].as_u64().unwrap() as usize,
     devs: e["devs"].as_u64().unwrap() as usize, ticks: e["ticks"].as_u64().unwrap() as usize, tablet_end: e["tablet_end"].as_bool().unwrap(),
     late_us: e["late_us"].as_array().unwrap().iter().map(|x| x.as_u64().unwrap()).collect(), exact_deadline_arrival: e["exact_deadline_arrival"].as_bool().unwrap(), max_calls: e["max_calls"].as_u64().unwrap() as usize,
+    script: e["script"].as_array().map(|a| a.iter().filter_map(|x| x.as_str()).map(|t| { let k: KeyCode = serde_json::from_value(json!(&t[1..])).expect("key"); if t.starts_with('+') { crate::keys::Event::Pressed(k) } else { crate::keys::Event::Released(k) } }).collect()).unwrap_or_default(),
+    burst_sizes: e["burst_sizes"].as_array().map(|a| a.iter().map(|x| x.as_u64().unwrap() as usize).collect()).unwrap_or_default(),
+    max_bursts: e["max_bursts"].as_u64().unwrap_or(0) as usize,
   };
   let choices: Vec<u16> = v["choices"].as_array().unwrap().iter().map(|x| x.as_u64().unwrap() as u16).collect();
   let fail_at = v["fail_at"].as_u64().map(|k| k as usize);
